@@ -348,6 +348,50 @@ func runC07(r resIface, c *c07case, rng *prng.R, scratch string) {
 	srv.Mu.Unlock()
 	if late > 0 {
 		r.Violation(sig("commands-after-return"), fmt.Sprintf("%d commands reached the target after the call had returned", late), c)
+		return
+	}
+	if c.Mode != "sync" || c.Index%6 != 1 {
+		return
+	}
+	// second round: the full phase starts over (a restarted sync after an aborted attempt) against the target that now
+	// holds every key, under key_exists=rewrite - with REPLACE on a current target, by delete-and-retry on a 2.8 one.
+	// When the call returns every wanted key must (still) hold the source value.
+	replace := c.Index/12%2 == 0
+	conf.Options.KeyExists, conf.Options.TargetReplace = "rewrite", replace
+	if !replace {
+		conf.Options.TargetVersion = "2.8.19"
+		srv.Mu.Lock()
+		srv.NoReplace, srv.BusyMsg = true, "ERR Target key name is busy."
+		srv.Mu.Unlock()
+	}
+	node := &slot.SyncNode{Id: c.Index % 1000, Source: "127.0.0.1:1", SourcePassword: "S3NT-src-c07", Target: []string{tcp.Addr}, TargetPassword: c07sentinel, SlotLeftBoundary: -1, SlotRightBoundary: -1}
+	ds := dbSync.NewDbSyncer(node, -1, semaphore.NewWeighted(1))
+	again := make(chan error, 1)
+	go func() {
+		again <- ds.VerifSyncRDBFile(bufio.NewReaderSize(bytes.NewReader(data), 1<<16), []string{tcp.Addr}, "auth", c07sentinel, int64(len(data)), false)
+	}()
+	select {
+	case retErr = <-again:
+	case <-time.After(120 * time.Second):
+		r.Inconcl(fmt.Sprintf("C07 run %d second round did not return within the watchdog", c.Index))
+		return
+	}
+	r.Count("second_rounds_over_a_populated_target", 1)
+	r.Case(fmt.Sprintf("second-round|replace%v|p%d|%s|%s", replace, c.Parallel, c.Policy, c.Filter))
+	if retErr != nil {
+		r.Violation(sig("second-round-error|replace="+fmt.Sprint(replace)), fmt.Sprintf("full phase repeated over the populated target (key_exists=rewrite, REPLACE %v) returned %v", replace, retErr), c)
+		return
+	}
+	snap = srv.Snapshot()
+	for _, w := range want {
+		if e := snap[w.db][w.key]; e == nil || !refrdb.Equal(e.Val, w.val) {
+			state := "holds another value"
+			if e == nil {
+				state = "is gone"
+			}
+			r.Violation(sig("second-round-key-lost|replace="+fmt.Sprint(replace)), fmt.Sprintf("after the full phase was repeated over the populated target (key_exists=rewrite, REPLACE %v) and returned success, key %q of db %d %s", replace, w.key, w.db, state), c)
+			return
+		}
 	}
 }
 
@@ -471,7 +515,7 @@ func c07runsChild(raw json.RawMessage, scratch string) {
 
 func c07(c *wk.Ctx) {
 	r := c.R
-	r.Rule = "RDB files with 50-400 keys over 1-6 databases (SELECTDB alternating between consecutive keys), lua scripts in between, pushed through the real syncRDBFile (hook) and CmdRestore.Main with parallel in {1,2,3,8,32}, target.db in {-1,2}, key/db black/white lists, against a loopback model target whose scheduler (random, round-robin, starve-one, newest-first, oldest-first) chooses which connection's pending command is applied next; per (db,key) RESTORE count must be exactly 1 in the right database at the moment the call returns, scripts loaded once each, nothing arrives after return; one scripted error reply / BUSYKEY on a chosen key must surface as a returned error (sync) or a non-successful end (restore mode). distinct = configuration tuple + every distinct interleaving signature (sequence of connection ids)"
+	r.Rule = "RDB files with 50-400 keys over 1-6 databases (SELECTDB alternating between consecutive keys), lua scripts in between, pushed through the real syncRDBFile (hook) and CmdRestore.Main with parallel in {1,2,3,8,32}, target.db in {-1,2}, key/db black/white lists, against a loopback model target whose scheduler (random, round-robin, starve-one, newest-first, oldest-first) chooses which connection's pending command is applied next; per (db,key) RESTORE count must be exactly 1 in the right database at the moment the call returns, scripts loaded once each, nothing arrives after return; one scripted error reply / BUSYKEY on a chosen key must surface as a returned error (sync) or a non-successful end (restore mode); every sixth sync run is followed by a second full phase over the populated target (key_exists=rewrite, with and without REPLACE) after which every wanted key must hold the source value. distinct = configuration tuple + every distinct interleaving signature (sequence of connection ids)"
 	onDeath := func(d wk.Death) {
 		if d.Result.TimedOut {
 			r.Inconcl("C07 child watchdog: " + wk.Tail(d.Result.Stderr, 300))
@@ -500,6 +544,7 @@ func c07(c *wk.Ctx) {
 		}
 		wk.RunBatch(c, "c07runs", n*p/parts, n*(p+1)/parts, nil, 30*time.Minute, onDeath)
 	})
+	r.Floor("second_rounds_over_a_populated_target", 8)
 	r.Floor("runs", 100)
 	r.Floor("failure_injections", 10)
 	r.Floor("mode:sync", 50)
